@@ -2,7 +2,7 @@
 from __future__ import print_function
 import logging
 
-from .util import (Source, print_dump, get_marked_atribute, split_pkg,
+from .util import (Source, print_dump, get_marked_atribute, split_pkg, SOURCE_MARK,
                    get_marked_name, get_marked_import, get_all_usages, join_pkg,
                    marked)
 from .evaluator import EvalCtx
@@ -115,10 +115,18 @@ def location(project, source, position, filename=None, debug=False):
         if node:
             result = ctx.declarations(node, [])
 
+    def unmarked(n):
+        # positions right of the cursor on its line were shifted by the cursor mark
+        loc = n.declared_at
+        if (n.filename == source.filename and loc[0] == position[0]
+                and loc[1] > position[1]):
+            loc = loc[0], loc[1] - len(SOURCE_MARK)
+        return _loc(loc, n.filename)
+
     locs = []
     for r in result:
         # builtins and compiled modules have no source location: skip them
-        alts = [_loc(n.declared_at, n.filename)
+        alts = [unmarked(n)
                 for n in (r if isinstance(r, list) else [r])
                 if hasattr(n, 'declared_at')]
         if not isinstance(r, list):
